@@ -869,6 +869,13 @@ def check(run, project):
     discarded_generators(run, project, "Q7", modules=(PRETTY, EVENTS, "tpmstream.io.binary.unmarshal"))
     from .shared import undefined_names
     undefined_names(run, project, "Q6", (PRETTY, EVENTS, "tpmstream.io.binary.unmarshal"), what="the printer fails instead of printing")
+    # Q12 (= C16-O4): "its value column is the value's text form": the text of a handle-range member is the range's name and
+    # the member's offset in the documented number of hex digits (the NamedRange rule, judged here for this clause)
+    from . import namedrange
+    try:
+        namedrange.check(run, "Q12", project.module("tpmstream.spec.common.values"))
+    except AnalysisError as ex:
+        run.info(f"Q12: NamedRange could not be followed ({ex}); not judged here (C16 reports it)")
     # Q11: "every structure and primitive event as exactly one row" of its own: the path a row is labelled with tells a list
     # from its elements and the elements from each other
     from .shared import pathnode_texts_distinct
